@@ -1352,10 +1352,60 @@ def _images_part(tree, out, spans):
     a = _local_assign(fn, 'image_orientation')
     _expect(a.value, '(' + ', '.join(f'float(dataset.ImageOrientationSlide[{k}])' for k in range(6)) + ')', 'iter_tiled_full_frame_data: image_orientation')
     spans.append(a)
-    ch = [n for n in ast.walk(fn) if isinstance(n, ast.Assign) and ast.unparse(n.targets[0]) == 'channels']
-    if sorted(_src(c.value) for c in ch) != sorted(['[None]', 'range(1, len(dataset.SegmentSequence) + 1)', 'range(1, num_optical_paths + 1)']):
-        raise Unsupported('iter_tiled_full_frame_data: channels: ' + ' | '.join(_src(c.value) for c in ch))
-    spans += ch
+    # how the number of channels is derived: SOP classes accepted, which of them are segmentations, LABELMAP = one channel (the
+    # length of the literal list), otherwise one per segment / per optical path (declared, else counted)
+    a = _local_assign(fn, 'allowed_sop_class_uids')
+    if not (isinstance(a.value, ast.Set) and all(isinstance(e, ast.Constant) and isinstance(e.value, str) for e in a.value.elts)):
+        raise Unsupported('iter_tiled_full_frame_data: allowed_sop_class_uids is not a set of string literals')
+    out.append(lean_table('tiledAllowedSopClasses', 'List String', [f'"{e.value}"' for e in a.value.elts],
+                          'iter_tiled_full_frame_data: SOP classes it accepts (others: ValueError)'))
+    spans.append(a)
+    chk = fn.body[fn.body.index(a) + 1]
+    _expect(chk.test, 'dataset.SOPClassUID not in allowed_sop_class_uids', 'iter_tiled_full_frame_data: SOP class test')
+    if not (isinstance(chk.body[0], ast.Raise) and ast.unparse(chk.body[0].exc.func) == 'ValueError'):
+        raise Unsupported('iter_tiled_full_frame_data: SOP class test does not raise ValueError')
+    spans.append(chk)
+    a = _local_assign(fn, 'is_segmentation')
+    v = a.value
+    if not (isinstance(v, ast.Compare) and _src(v.left) == 'dataset.SOPClassUID' and len(v.ops) == 1 and isinstance(v.ops[0], ast.In)
+            and isinstance(v.comparators[0], ast.Tuple) and all(isinstance(e, ast.Constant) for e in v.comparators[0].elts)):
+        raise Unsupported('iter_tiled_full_frame_data: is_segmentation: ' + _src(v))
+    seg_classes = [e.value for e in v.comparators[0].elts]
+    spans.append(a)
+    dec = _one((n for n in fn.body if isinstance(n, ast.If) and _src(n.test) == 'is_segmentation'), 'iter_tiled_full_frame_data: channel decision')
+    inner = dec.body[0]
+    if not (len(dec.body) == 1 and isinstance(inner, ast.If) and isinstance(inner.test, ast.Compare) and _src(inner.test.left) == 'dataset.SegmentationType'
+            and isinstance(inner.test.ops[0], ast.Eq) and isinstance(inner.test.comparators[0], ast.Constant)):
+        raise Unsupported('iter_tiled_full_frame_data: segmentation branch: ' + _src(dec)[:160])
+    labelmap = inner.test.comparators[0].value
+
+    def count_of(stmt, what):
+        if not (isinstance(stmt, ast.Assign) and ast.unparse(stmt.targets[0]) == 'channels'):
+            raise Unsupported(f'{what}: {_src(stmt)}')
+        v = stmt.value
+        if isinstance(v, ast.List):
+            return str(len(v.elts))
+        if (isinstance(v, ast.Call) and ast.unparse(v.func) == 'range' and len(v.args) == 2 and _src(v.args[0]) == '1'
+                and isinstance(v.args[1], ast.BinOp) and isinstance(v.args[1].op, ast.Add) and _src(v.args[1].right) == '1'):
+            e = _src(v.args[1].left)
+            names = {'len(dataset.SegmentSequence)': 'segments', 'num_optical_paths': '(declared_paths.getD path_items)'}
+            if e in names:
+                return names[e]
+        raise Unsupported(f'{what}: channels = {_src(v)}')
+    c_label = count_of(inner.body[0], 'LABELMAP channels')
+    c_seg = count_of(inner.orelse[0], 'segment channels')
+    if len(inner.body) != 1 or len(inner.orelse) != 1 or len(dec.orelse) != 2:
+        raise Unsupported('iter_tiled_full_frame_data: channel decision has extra statements')
+    _expect(dec.orelse[0], "num_optical_paths = getattr(dataset, 'NumberOfOpticalPaths', len(dataset.OpticalPathSequence))", 'optical paths')
+    c_path = count_of(dec.orelse[1], 'optical path channels')
+    out.append(lean_table('segmentationSopClasses', 'List String', [f'"{c}"' for c in seg_classes],
+                          'iter_tiled_full_frame_data: the SOP classes whose channels are segments'))
+    out.append('/-- iter_tiled_full_frame_data: number of channels (outermost loop) from the SOP class, the segmentation type, the number of items of\n'
+               'SegmentSequence, NumberOfOpticalPaths (if present) and the number of items of OpticalPathSequence -/\n'
+               'def tiledChannelCount (sop_class segmentation_type : String) (segments : Nat) (declared_paths : Option Nat) (path_items : Nat) : Nat :=\n'
+               f'  if segmentationSopClasses.contains sop_class then (if segmentation_type = "{labelmap}" then {c_label} else {c_seg})\n'
+               f'  else {c_path}')
+    spans.append(dec)
     loop = _one((n for n in fn.body if isinstance(n, ast.For)), 'iter_tiled_full_frame_data: outer loop')
     # the two outer loops may come in either order (the order is EMITTED: frames are numbered by it); z_offset is assigned once,
     # inside the loop over the focal planes
